@@ -227,7 +227,7 @@ def write_evidence(prop, tier, seed, level, coverage, wall_s, violations, assump
     os.makedirs(EVID, exist_ok=True)
     ev = dict(property_id=prop, tier=tier, seed=int(seed), level=level, coverage=coverage,
               assumptions=assumptions, wall_s=round(wall_s, 3), violations=int(violations))
-    tmp = os.path.join(EVID, f".{prop}.json.tmp")
+    tmp = os.path.join(EVID, f".{prop}.json.{os.getpid()}.tmp")
     with open(tmp, "w") as fh:
         json.dump(ev, fh, indent=1, sort_keys=True)
     os.replace(tmp, os.path.join(EVID, f"{prop}.json"))
